@@ -18,3 +18,11 @@ package date_j5t
 //@ func DateFromString
 //@   ensures range: result1 == nil ==> result0 != nil && 0 <= result0.Year && result0.Year <= 9999 && 1 <= result0.Month && result0.Month <= 12 && 1 <= result0.Day && result0.Day <= 31
 //@   ensures exact: result1 == nil ==> (exists a string, b string, c string :: atoiOK(a) && atoiOK(b) && atoiOK(c) && result0.Year == atoiVal(a) && result0.Month == atoiVal(b) && result0.Day == atoiVal(c))
+
+// ... and the day exists in that month of that year (proleptic Gregorian calendar): 2023-02-31 is rejected
+//@ spec func leapYear(y int) bool = y % 4 == 0 && (y % 100 != 0 || y % 400 == 0)
+//@ spec func monthDays(y int, m int) int = (m == 4 || m == 6 || m == 9 || m == 11) ? 30 : (m == 2 ? (leapYear(y) ? 29 : 28) : 31)
+//@ func daysInMonth
+//@   ensures exact: result == monthDays(year, month)
+//@ func DateFromString
+//@   ensures calendar: result1 == nil ==> result0.Day <= monthDays(result0.Year, result0.Month)
